@@ -24,6 +24,9 @@ package cache
 //@ field EntryMetadata.TimeWritten guarded_by immutable
 //@ field MemoryCache.memoryCap guarded_by mu
 //@ field map_map_cache.CacheKey guarded_by mu+shard
+// An Entry handed out by Get / Cache belongs to the caller that received it, until a coalesced fetch
+// shares it with other callers: nobody writes into an Entry he did not obtain himself in this call.
+//@ field Entry_.Data guarded_by immutable
 //@ field cacheJanitor.interval guarded_by confined:newCacheJanitor,cacheJanitor.start,cacheJanitor.start$1
 //@ field cacheJanitor.running guarded_by confined:newCacheJanitor,cacheJanitor.start,cacheJanitor.stop also:C19
 
@@ -193,12 +196,15 @@ package cache
 
 // ---------------------------------------------------------------- memory backend: store
 
+// A body is admitted only while the accounted size is below the limit (at the limit the store
+// evicts first, or gives up).
 // Storing under a key: on success the entry holds all bytes of the reader, its
 // size is their number, and the metadata object is the one given; other keys
 // are untouched.  The representation invariant is kept on every path, also when
 // the key was already present (overwrite) and when the source reader fails.
 //@ props C12 C01 C09 C14 C15 C16 C13
 //@ func MemoryCache.cacheInternal
+//@   ghost callsite-requires [C13] ReadFrom c.byteSize.val.v < local(limit)
 //@   ghost balanced-also C09
 //@   ghost stable-if mbytes == c.byteSize.val.v
 //@   ghost stable-if mentries == len(c.entries)
@@ -372,6 +378,7 @@ package cache
 //@ props C13 C14 C15 C16 C12
 //@ func cacheJanitor.evict
 //@   nopanic
+//@   ghost balanced-also C13
 //@   ensures [C12] mbytes == jsize
 //@   ghost callbacks-only
 //@   ghost blocks-at 2
@@ -403,12 +410,15 @@ package cache
 //@   ghost callsite-requires getCacheSize true
 //@   ghost callsite-requires [C13] evict arg_maxCacheBytes == cfgval(j.cfg.Cache.MaxCacheSize)
 
+// (a shard lock kept past an iteration makes its entries unremovable in every later cycle: the
+// balance of the removal loops also serves C13)
 // Each cleanup cycle removes exactly the expired entries: a key is handed to
 // removeEntry only if the entry stored for it NOW (under its shard lock) is expired - the
 // cycle looks the entry up again once it holds the lock.
 //@ props C13 C14 C15 C16 C12
 //@ func cacheJanitor.cleanExpiredEntries
 //@   nopanic
+//@   ghost balanced-also C13
 //@   assigns cache.MemoryCache cache.FileCache cache.EntryMetadata cache.memoryInternalEntry map_map_cache.CacheKey atomic.Int64 ghost:mapsum ghost:fsinode ghost:jsize ghost:mbytes ghost:mentries ghost:jexp
 //@   ghost callsite-requires [C13] removeEntry jexp(arg_key) < now
 //@   loop 1 invariant len(keysToRemove) >= 0
